@@ -572,6 +572,34 @@ fn shell_option_spellings(ctx: &mut Ctx, r: &mut StdRng) {
             ctx.violation("C17:cli-shell-option:verify", format!("`txtpp {}` right after a build with the same shell failed: the configured shell was not used for verify ({})", v.join(" "), o.short()), cj.clone());
         }
     }
+    // a configured shell that cannot be resolved is an error, not a reason to fall back to `sh`
+    let _ = std::fs::remove_file(root.join("s.txt"));
+    let bad = [vec!["-q", "-s", "/nonexistent/mysh -c", "s.txt"], vec!["-q", "--shell", "./tools/missing-shell -c", "s.txt"], vec!["verify", "-q", "-s", "no-such-shell-anywhere -c", "s.txt"]];
+    let b = &bad[r.gen_range(0..3)];
+    let o = run_cli(&root, &to_args(b), &CliOpts::default());
+    ctx.evals += 1;
+    ctx.count("cli_shell_option_runs", 1);
+    if !o.timed_out && (o.code == Some(0) || (b[0] != "verify" && root.join("s.txt").exists() && std::fs::read(root.join("s.txt")).map(|x| x.windows(2).any(|w| w == b"hi")).unwrap_or(false))) {
+        ctx.violation("C17:cli-shell-option:unresolvable-shell-replaced", format!("`txtpp {}`: the configured shell does not exist, but the run succeeded / the command was executed by another shell (exit {:?})", b.join(" "), o.code), cj.clone());
+    }
+    // an entry of the working directory named like the shell (`sh` as a directory, or as an
+    // executable stub) must not shadow the shell found through PATH
+    let shadow = r.gen_range(0..2);
+    if shadow == 0 {
+        let _ = std::fs::create_dir_all(root.join("sh"));
+    } else {
+        let _ = std::fs::write(root.join("sh"), "#!/bin/sh\necho HIJACKED \"$@\"\n");
+        let _ = std::process::Command::new("chmod").arg("+x").arg(root.join("sh")).status();
+    }
+    let _ = std::fs::remove_file(root.join("s.txt"));
+    let spell: Vec<&str> = if r.gen_bool(0.5) { vec!["-q", "s.txt"] } else { vec!["-q", "-s", "sh -c", "s.txt"] };
+    let o = run_cli(&root, &to_args(&spell), &CliOpts::default());
+    ctx.evals += 1;
+    ctx.count("cli_shell_option_runs", 1);
+    let out = String::from_utf8_lossy(&std::fs::read(root.join("s.txt")).unwrap_or_default()).to_string();
+    if !o.timed_out && (o.code != Some(0) || out != "begin\nhi\nend\n") {
+        ctx.violation("C17:cli-shell-option:shadowed-by-cwd-entry", format!("`txtpp {}` in a directory that contains {} named `sh`: exit {:?}, output {out:?} (expected the PATH shell to run `echo hi`)", spell.join(" "), if shadow == 0 { "a directory" } else { "an executable stub" }, o.code), cj.clone());
+    }
     ctx.distinct.insert(crate::util::hash_str(&cj.to_string()));
     ctx.scratch.discard(&parent);
 }
